@@ -361,8 +361,9 @@ Definition model_inplace (i : input) : obs :=
 
 (* ---------- boolean equalities (maps are compared as maps, not as lists) ---------- *)
 
+(* the two maps agree on every key of [a]; [amap_eqv a b = true] iff they agree on every key *)
 Definition sub_map (a b : amap) : bool :=
-  forallb (fun kv => opt_eqb String.eqb (lookup (fst kv) b) (Some (snd kv))) a.
+  forallb (fun kv => opt_eqb String.eqb (lookup (fst kv) b) (lookup (fst kv) a)) a.
 
 Definition amap_eqv (a b : amap) : bool := sub_map a b && sub_map b a.
 
@@ -464,9 +465,7 @@ Definition ann_ok (pc0 : amap) (si : sinfo) (tm : Z) (m : amap) : bool :=
   opt_eqb String.eqb (lookup k_thumb m) (Some (json_strs (si_chain si)))
   && opt_eqb String.eqb (lookup k_created m) (Some (rfc3339 tm))
   && forallb (fun kv => String.eqb (fst kv) k_thumb || String.eqb (fst kv) k_created
-                        || opt_eqb String.eqb (lookup (fst kv) m) (Some (snd kv))) pc0
-  && forallb (fun kv => String.eqb (fst kv) k_thumb || String.eqb (fst kv) k_created
-                        || opt_eqb String.eqb (lookup (fst kv) pc0) (Some (snd kv))) m.
+                        || opt_eqb String.eqb (lookup (fst kv) m) (lookup (fst kv) pc0)) (pc0 ++ m)%list.
 
 Definition spec_call (tbl : table) (probes : list string) (hp : heap) (sp : list stored)
            (c : call_in) (o : call_obs) : bool :=
@@ -563,15 +562,12 @@ Definition spec_ok (i : input) (o : obs) : bool :=
 Fixpoint nodup_str (l : list string) : bool :=
   match l with [] => true | x :: l' => negb (mem_str x l') && nodup_str l' end.
 
-Fixpoint nodup_N (l : list N) : bool :=
-  match l with [] => true | x :: l' => negb (existsb (N.eqb x) l') && nodup_N l' end.
-
 Definition table_addrs (t : table) : list addr :=
   flat_map (fun e => match d_ann (snd e) with AShared a => [a] | _ => [] end) t.
 
-(* heap objects are distinct and are Go maps (one value per key); the repository hands
-   out nil maps or heap objects; the signer's own annotation map is a heap object that is
-   neither one of the repository's maps nor the caller's metadata *)
+(* heap objects are Go maps (one value per key); the map a signer returns from
+   PluginAnnotations() is a heap object that is neither one of the repository's maps nor
+   the caller's metadata (the signer's own object) *)
 Definition wf_call (h : heap) (t : table) (c : call_in) : bool :=
   match ci_pa c with
   | PAMap a => is_some (hget a h) && negb (existsb (N.eqb a) (table_addrs t))
@@ -579,11 +575,10 @@ Definition wf_call (h : heap) (t : table) (c : call_in) : bool :=
   | _ => true
   end.
 
+Definition wf_heap (h : heap) : bool := forallb (fun e => nodup_str (map fst (snd e))) h.
+
 Definition wf (i : input) : bool :=
-  nodup_N (map fst (i_heap i))
-  && forallb (fun e => nodup_str (map fst (snd e))) (i_heap i)
-  && forallb (fun e => match d_ann (snd e) with AFresh _ => false | _ => true end) (i_table i)
-  && forallb (wf_call (i_heap i) (i_table i)) (i_calls i).
+  wf_heap (i_heap i) && forallb (wf_call (i_heap i) (i_table i)) (i_calls i).
 
 (* ---------- cases ---------- *)
 Record case := mk_case { c_id : N; c_in : input; c_obs : obs }.
